@@ -33,6 +33,10 @@ func (pd *perRawBitData) appendAlignBits() {
 }
 
 func (pd *perRawBitData) putBitString(bytes []byte, numBits uint) (err error) {
+	if numBits == 0 {
+		// an empty string (e.g. OCTET STRING (SIZE(0))) adds no bits
+		return
+	}
 	bytes = bytes[:(numBits+7)>>3]
 	if pd.bitsOffset == 0 {
 		pd.bytes = append(pd.bytes, bytes...)
